@@ -116,14 +116,14 @@ Ltac solve_masked :=
 Lemma quirk_le64 p v4 : is_mapped (n_ip p) = false -> quirk p v4 = false -> is_mapped (embed p v4) = false.
 Proof. unfold quirk. intros ->. cbn [negb]. rewrite andb_true_r. auto. Qed.
 
-Lemma extract_embed_cur p v4 :
-  wf_prefix p -> length v4 = 4%nat -> quirk p v4 = false -> extract cur p (embed p v4) = Some v4.
+Lemma extract_embed_old p v4 :
+  wf_prefix p -> length v4 = 4%nat -> quirk p v4 = false -> extract old p (embed p v4) = Some v4.
 Proof.
   intros W H4 Hq.
   destruct (length4 _ H4) as (v0&v1&v2&v3&->).
   destruct (wf_prefix_shape _ W) as (a0&a1&a2&a3&a4&a5&a6&a7&a9&a10&a11&[->|[->|[->|[->|[->| ->]]]]]).
   1-5: (apply quirk_le64 in Hq; [|reflexivity]);
-       unfold extract; cbn [cur fx_contains];
+       unfold extract; cbn [old fx_contains];
        rewrite net_contains_plain; [| reflexivity | reflexivity | reflexivity | reflexivity | exact Hq ].
   - change (mask_bytes (n_ones _) 16) with [255;255;255;255;0;0;0;0;0;0;0;0;0;0;0;0].
     replace (masked_eqb _ _ _) with true by (symmetry; cbn [n_ip]; change (embed _ _) with [a0;a1;a2;a3;v0;v1;v2;v3;0;0;0;0;0;0;0;0]; solve_masked).
@@ -143,7 +143,7 @@ Proof.
   - (* /96: prefix and embedded address are mapped or not together *)
     set (p := mk_net [a0;a1;a2;a3;a4;a5;a6;a7;0;a9;a10;a11;0;0;0;0] 96 16) in *.
     assert (is_mapped (embed p [v0;v1;v2;v3]) = is_mapped (n_ip p)) as Hsame by reflexivity.
-    unfold extract; cbn [cur fx_contains].
+    unfold extract; cbn [old fx_contains].
     destruct (is_mapped (n_ip p)) eqn:Em.
     + rewrite net_contains_mapped; [| reflexivity | reflexivity | exact Em | reflexivity | exact Hsame ].
       replace (masked_eqb _ _ _) with true by (symmetry; subst p; cbn [n_ip n_ones];
@@ -180,7 +180,7 @@ Qed.
 Lemma extract_embed_witness :
   let p := mk_net (zeros 16) 56 16 in
   let v4 := [0; 0; 255; 255] in
-  wf_prefix p /\ length v4 = 4%nat /\ embed p v4 = [0;0;0;0;0;0;0;0;0;0;255;255;0;0;0;0] /\ extract cur p (embed p v4) = None.
+  wf_prefix p /\ length v4 = 4%nat /\ embed p v4 = [0;0;0;0;0;0;0;0;0;0;255;255;0;0;0;0] /\ extract old p (embed p v4) = None.
 Proof. repeat split; reflexivity. Qed.
 
 (* and only there: the corner needs an all-zero /56 or /64 prefix *)
@@ -213,9 +213,9 @@ Qed.
 Lemma extract_embed_partial p v4 :
   wf_prefix p -> length v4 = 4%nat ->
   all_zero (firstn 7 (n_ip p)) = false ->
-  extract cur p (embed p v4) = Some v4.
+  extract old p (embed p v4) = Some v4.
 Proof.
-  intros W H4 Hz. apply extract_embed_cur; auto.
+  intros W H4 Hz. apply extract_embed_old; auto.
   destruct (quirk p v4) eqn:Q; [|reflexivity].
   apply quirk_only_zero_prefix in Q; auto. destruct Q as [_ Q]. congruence.
 Qed.
@@ -308,14 +308,14 @@ Ltac chase H :=
       let E := fresh "Z" in destruct c eqn:E; [|discriminate H]
   end.
 
-Lemma extract_sound_cur p a v4 :
+Lemma extract_sound_old p a v4 :
   wf_prefix p -> bytes_ok (n_ip p) -> length a = 16%nat -> bytes_ok a ->
-  extract cur p a = Some v4 -> a = embed p v4 /\ length v4 = 4%nat.
+  extract old p a = Some v4 -> a = embed p v4 /\ length v4 = 4%nat.
 Proof.
   intros W Bp La Ba H.
   destruct (length16 _ La) as (b0&b1&b2&b3&b4&b5&b6&b7&b8&b9&b10&b11&b12&b13&b14&b15&->).
   destruct (wf_prefix_shape _ W) as (a0&a1&a2&a3&a4&a5&a6&a7&a9&a10&a11&[->|[->|[->|[->|[->| ->]]]]]);
-    unfold extract in H; cbn [cur fx_contains] in H;
+    unfold extract in H; cbn [old fx_contains] in H;
     (destruct (net_contains _ _) eqn:C; [|discriminate H]);
     cbn [negb n_ones] in H;
     match type of H with context [valid_bits ?b] => change (valid_bits b) with true in H end;
@@ -349,19 +349,67 @@ Qed.
 
 Lemma extract_rejects_nonconformant_lem p a :
   wf_prefix p -> bytes_ok (n_ip p) -> length a = 16%nat -> bytes_ok a ->
-  (forall v4, a <> embed p v4) -> extract cur p a = None.
+  (forall v4, a <> embed p v4) -> extract old p a = None.
 Proof.
-  intros W Bp La Ba Hn. destruct (extract cur p a) as [v4|] eqn:E; [|reflexivity].
-  apply extract_sound_cur in E; auto. destruct E as [E _]. exfalso. exact (Hn v4 E).
+  intros W Bp La Ba Hn. destruct (extract old p a) as [v4|] eqn:E; [|reflexivity].
+  apply extract_sound_old in E; auto. destruct E as [E _]. exfalso. exact (Hn v4 E).
 Qed.
 (* in particular a non-zero "u" octet or a non-zero suffix *)
 Lemma extract_rejects_u_or_suffix p a :
   wf_prefix p -> bytes_ok (n_ip p) -> length a = 16%nat -> bytes_ok a ->
   nthb a 8 <> 0 \/ all_zero (skipn (suffix_start (n_ones p)) a) = false ->
+  extract old p a = None.
+Proof.
+  intros W Bp La Ba Hbad. destruct (extract old p a) as [v4|] eqn:E; [|reflexivity].
+  apply extract_sound_old in E; auto. destruct E as [-> L4].
+  destruct (embed_layout p v4 W L4) as (_ & _ & U & _ & S).
+  destruct Hbad as [Hb | Hb]; [contradiction | congruence].
+Qed.
+
+(* ---------------- the tree as it is (prefixContains) ---------------- *)
+Lemma extract_embed_now p v4 :
+  wf_prefix p -> length v4 = 4%nat -> extract cur p (embed p v4) = Some v4.
+Proof. apply extract_embed_fixed. reflexivity. Qed.
+
+Lemma extract_sound_fixed v p a v4 :
+  fx_contains v = true ->
+  wf_prefix p -> bytes_ok (n_ip p) -> length a = 16%nat -> bytes_ok a ->
+  extract v p a = Some v4 -> a = embed p v4 /\ length v4 = 4%nat.
+Proof.
+  intros Hv W Bp La Ba H.
+  destruct (length16 _ La) as (b0&b1&b2&b3&b4&b5&b6&b7&b8&b9&b10&b11&b12&b13&b14&b15&->).
+  destruct (wf_prefix_shape _ W) as (a0&a1&a2&a3&a4&a5&a6&a7&a9&a10&a11&[->|[->|[->|[->|[->| ->]]]]]);
+    unfold extract in H; rewrite Hv in H;
+    (destruct (net_contains16 _ _) eqn:C; [|discriminate H]);
+    cbn [negb n_ones] in H;
+    match type of H with context [valid_bits ?b] => change (valid_bits b) with true in H end;
+    cbn [negb] in H;
+    change (to16 _) with (Some [b0;b1;b2;b3;b4;b5;b6;b7;b8;b9;b10;b11;b12;b13;b14;b15]) in H;
+    cbn [N.eqb Pos.eqb nthb nth skipn all_zero forallb] in H;
+    chase H; injection H as <-; (split; [|reflexivity]);
+    unfold net_contains16 in C; cbn [n_ip n_ones n_mlen] in C;
+    match type of C with context [to16 ?l] => change (to16 l) with (Some l) in C end;
+    change (to16 [b0;b1;b2;b3;b4;b5;b6;b7;b8;b9;b10;b11;b12;b13;b14;b15])
+      with (Some [b0;b1;b2;b3;b4;b5;b6;b7;b8;b9;b10;b11;b12;b13;b14;b15]) in C;
+    match type of C with context [mask_bytes ?o 16] => let m := eval vm_compute in (mask_bytes o 16) in change (mask_bytes o 16) with m in C end;
+    cbn [N.eqb Pos.eqb andb masked_eqb] in C; split_andb C;
+    repeat match goal with Z : (_ && _) = true |- _ => split_andb Z end;
+    eqb_to_eq; cbn [n_ip] in Bp; bytes_inv Bp; bytes_inv Ba;
+    rewrite ?land_255 in * by assumption; subst; reflexivity.
+Qed.
+
+Lemma extract_sound_now p a v4 :
+  wf_prefix p -> bytes_ok (n_ip p) -> length a = 16%nat -> bytes_ok a ->
+  extract cur p a = Some v4 -> a = embed p v4 /\ length v4 = 4%nat.
+Proof. apply extract_sound_fixed. reflexivity. Qed.
+
+Lemma extract_rejects_u_or_suffix_now p a :
+  wf_prefix p -> bytes_ok (n_ip p) -> length a = 16%nat -> bytes_ok a ->
+  nthb a 8 <> 0 \/ all_zero (skipn (suffix_start (n_ones p)) a) = false ->
   extract cur p a = None.
 Proof.
   intros W Bp La Ba Hbad. destruct (extract cur p a) as [v4|] eqn:E; [|reflexivity].
-  apply extract_sound_cur in E; auto. destruct E as [-> L4].
+  apply extract_sound_now in E; auto. destruct E as [-> L4].
   destruct (embed_layout p v4 W L4) as (_ & _ & U & _ & S).
   destruct Hbad as [Hb | Hb]; [contradiction | congruence].
 Qed.
